@@ -1864,6 +1864,10 @@ class Exec:
                 if isinstance(x, VDict):
                     return [(st, VInt(len(x.of(st))))]
                 return [(st, VInt(z3.Length(self.seq(x, st))))]
+            if name in ('max', 'min') and len(A) > 1 and any(isinstance(a, VExt) for a in A):
+                # the larger / smaller of external values (datetimes, ...): an external value of its own, none of the operands in general
+                kinds = {a.name for a in A if isinstance(a, VExt)}
+                return [(st, VExt(kinds.pop() if len(kinds) == 1 and all(isinstance(a, VExt) for a in A) else name, (name, tuple(A))))]
             if name == 'max' or name == 'min':
                 zs = [self.as_int(a) for a in A]
                 r = zs[0]
